@@ -88,7 +88,7 @@ def param_sets(rng, hevc):
 AAC_RATES = [96000, 88200, 64000, 48000, 44100, 32000, 24000, 22050, 16000, 12000, 11025, 8000]
 
 
-def make_es(rng, vcodec, acodec, arate, nv, gop, sizes, aud, inband, sdp_params, extras, change_at=None, vrate=90000, fps_ticks=3600):
+def make_es(rng, vcodec, acodec, arate, nv, gop, sizes, aud, inband, sdp_params, extras, change_at=None, vrate=90000, fps_ticks=3600, na=None):
     """returns dict(video=[frame], audio=[frame], params=..., asc=...).  video frame = dict(ts, nals, params_in_force),
     ts in clock ticks (exact), audio frame = dict(ts, data)."""
     hevc = vcodec == "h265"
@@ -130,11 +130,11 @@ def make_es(rng, vcodec, acodec, arate, nv, gop, sizes, aud, inband, sdp_params,
         else:
             per = arate // 50
         dur = (nv * fps_ticks / vrate) if vcodec != "none" else 0.4
-        na = max(3, int(dur * arate / per) + 1)
+        na = max(3, int(dur * arate / per) + 1) if na is None else na
         ats = rng.choice([0, 48000, 987654321])
         for k in range(na):
             if acodec == "aac":
-                n = rng.choice([5, 6, 7, 23, 180, 371] + ([1, 2, 4] if "tinyaac" in extras else []) + ([1500] if "bigaac" in extras else []))
+                n = rng.choice([5, 6, 7, 23, 60] if "smallaac" in extras else [5, 6, 7, 23, 180, 371] + ([1, 2, 4] if "tinyaac" in extras else []) + ([1500] if "bigaac" in extras else []))
             else:
                 n = per if acodec != "opus" else rng.choice([3, 40, 160])
             es["audio"].append(dict(ts=(ats + k * per) % (1 << 32), data=bytes(rng.randrange(256) for _ in range(n))))
@@ -187,6 +187,14 @@ def rtp_audio_packets(rng, es, mode, maxp):
                 chunks = [f["data"][k:k + maxp - 4] for k in range(0, len(f["data"]), maxp - 4)]
                 out.append((f["ts"], [c13.au_fragment(len(f["data"]), c) for c in chunks], 1))
                 i += 1
+            elif mode.startswith("multi") and len(mode) > 5 and i > 0:
+                # RFC 3640 3.2.1: several complete access units in one packet, the rtp timestamp is that of the first one
+                k = int(mode[5:])
+                grp = fr[i:i + k]
+                while len(grp) > 1 and 2 + sum(len(x["data"]) + 2 for x in grp) > maxp:
+                    grp = grp[:-1]
+                out.append((f["ts"], [c13.au_payload([x["data"] for x in grp])], len(grp)))
+                i += len(grp)
             elif mode == "multi" and i + 1 < len(fr) and i > 0 and len(fr[i + 1]["data"]) + 4 <= maxp and rng.random() < 0.5:
                 k = 2
                 out.append((f["ts"], [c13.au_payload([x["data"] for x in fr[i:i + k]])], k))
@@ -306,7 +314,7 @@ def ps_stream(rng, es, pes_max, pts_mode, mtu, hdr_every_key=True, stuffing=0):
             data += c13.ps_pack_header(stuffing=stuffing)
             if first or (fr["key"] and hdr_every_key):
                 data += c13.ps_system_header() + c13.ps_psm(entries)
-            payload = annexb(fr["nals"], es.get("sc", b"\x00\x00\x00\x01")) + es.get("tz", b"")
+            payload = es.get("lead", b"") + annexb(fr["nals"], es.get("sc", b"\x00\x00\x00\x01")) + es.get("tz", b"")
             sid = 0xe0
         else:
             if first:
@@ -401,7 +409,7 @@ def ms_exact(ticks, rate):
     return ticks * 1000 / rate
 
 
-def check_video(msgs, es, mode, drop_last, tol=1.0):
+def check_video(msgs, es, mode, drop_last, tol=0):
     """msgs: ('V', ts, payload) in order.  mode 'start': everything from the first source frame; 'sub': from a key frame on."""
     hevc = es["hevc"]
     src = []      # (frame index, nal)
@@ -465,12 +473,12 @@ def check_video(msgs, es, mode, drop_last, tol=1.0):
                 raise Bad("key frame before any video sequence header")
             if cur_params != want_ps:
                 raise Bad("sequence header in force does not carry the parameter sets of this key frame")
-        sms = ms_exact(frames[fidx]["ts"], es["vrate"])
+        sms = frames[fidx]["ts"] * 1000 // es["vrate"]          # floor(1000 * ticks / clock rate)
         if ref is None:
             ref = (ts, sms)
         d = ((ts - ref[0] + (1 << 31)) % (1 << 32) - (1 << 31)) - (sms - ref[1])
         if abs(d) > tol:
-            raise Bad("video timestamp drifts: message %d ms after the first, source %.3f ms" % (ts - ref[0], sms - ref[1]))
+            raise Bad("video timestamp off the source clock: message %d ms after the first, source clock %d ms (frame %d)" % (ts - ref[0], sms - ref[1], fidx))
     if pos is None:
         if any(is_key_nal(hevc, n) for k, n in src):
             raise Bad("no video frame forwarded although the source has a key frame")
@@ -479,7 +487,7 @@ def check_video(msgs, es, mode, drop_last, tol=1.0):
         raise Bad("%d of %d source NAL units missing at the end" % (len(src) - pos, len(src)))
 
 
-def check_audio(msgs, es, mode, drop_last, adts, tol=1.0, may_start_late=False):
+def check_audio(msgs, es, mode, drop_last, adts, tol=0, may_start_late=False):
     frames = es["audio"][:-1] if (drop_last and es["audio"]) else es["audio"]
     ac = es["acodec"]
     first = {"aac": 0xaf, "pcma": 0x72, "pcmu": 0x82, "opus": 0xdf}[ac]
@@ -515,12 +523,12 @@ def check_audio(msgs, es, mode, drop_last, adts, tol=1.0, may_start_late=False):
             raise Bad("audio frame beyond the end of the source")
         if frames[pos]["data"] != data:
             raise Bad("audio frame %d differs: got %s..[%d] want %s..[%d]" % (pos, data[:8].hex(), len(data), frames[pos]["data"][:8].hex(), len(frames[pos]["data"])))
-        sms = ms_exact(frames[pos]["ts"], es["arate"])
+        sms = frames[pos]["ts"] * 1000 // es["arate"]           # floor(1000 * samples / clock rate)
         if ref is None:
             ref = (ts, sms)
         d = ((ts - ref[0] + (1 << 31)) % (1 << 32) - (1 << 31)) - (sms - ref[1])
         if abs(d) > tol:
-            raise Bad("audio timestamp drifts: message %d ms after the first, source %.3f ms (frame %d)" % (ts - ref[0], sms - ref[1], pos))
+            raise Bad("audio timestamp off the source clock: message %d ms after the first, sample clock %d ms (frame %d)" % (ts - ref[0], sms - ref[1], pos))
         pos += 1
     if pos is None:
         if not may_start_late and frames:
@@ -530,7 +538,7 @@ def check_audio(msgs, es, mode, drop_last, adts, tol=1.0, may_start_late=False):
         raise Bad("%d of %d source audio frames missing at the end" % (len(frames) - pos, len(frames)))
 
 
-def check_stream(msgs, es, mode, drop_last=False, adts=False, atol=1.0, meta_first=True, audio_late=False):
+def check_stream(msgs, es, mode, drop_last=False, adts=False, atol=0, meta_first=True, audio_late=False):
     """the property on a list of ('M'|'A'|'V', ...) messages"""
     if meta_first and msgs and msgs[0][0] != "M":
         raise Bad("first message is not the metadata")
@@ -614,7 +622,8 @@ def es_of_spec(d, rng):
     ex = [x for x in d.get("ex", "").split("+") if x]
     chg = int(d["chg"]) if d.get("chg", "") not in ("", "-1") else None
     return make_es(rng, d["v"], d["a"], int(d.get("ar", 8000)), int(d.get("nv", 8)), int(d.get("gop", 4)), SIZES[d.get("sz", "s")],
-                   d.get("aud", "0") == "1", d.get("inband", "1") == "1", d.get("sdp", "0") == "1", ex, change_at=chg)
+                   d.get("aud", "0") == "1", d.get("inband", "1") == "1", d.get("sdp", "0") == "1", ex, change_at=chg,
+                   na=int(d["na"]) if d.get("na") else None)
 
 
 def nil_or(b):
@@ -642,6 +651,10 @@ def build(d):
                 ",".join("%d:%s" % (ch, hex_tok(p)) for ch, p in arr) or "-"]
         return "c07.%s %s %s" % (op, " ".join(args), spec_tok(d)), es
     if op in ("ps", "e2e_ps"):
+        if d.get("sc") == "a3":
+            es["sc"] = b"\x00\x00\x01"
+        elif d.get("sc") == "a5":
+            es["sc"] = b"\x00\x00\x00\x00\x01"
         pk = ps_stream(rng, es, int(d.get("pes", 65000)), d.get("pts", "first"), int(d.get("mtu", 1400)), stuffing=int(d.get("stuff", 0)))
         return "c07.%s %s %s %s" % (op, d.get("maxlist", "1024"), ",".join(hex_tok(p) for p in pk) or "-", spec_tok(d)), es
     if op in ("cust", "e2e_cust"):
@@ -775,16 +788,16 @@ def oracle(c, out):
             # no config in the sdp: the audio track is not unpackable, nothing of it may come out
             es = dict(es, acodec="none", audio=[])
         queue = op in ("c07.rtsp", "c07.e2e_rtsp") and d.get("filt", "1") == "1" and es["vcodec"] != "none" and es["acodec"] != "none"
-        atol = 2.0 if d.get("am") == "multi" else 1.0
-        drop_last = op in ("c07.ps", "c07.e2e_ps")
-        adts = drop_last or d.get("af") == "adts"
+        atol = 1 if d.get("am", "").startswith("multi") else 0
+        drop_last = op in ("c07.ps", "c07.e2e_ps") and d.get("last") != "1"
+        adts = op in ("c07.ps", "c07.e2e_ps") or d.get("af") == "adts"
         if op in ("c07.rtsp", "c07.cust"):
             msgs = msgs_of_groups(parse_groups(out))
             check_with_tail(msgs, es, "start", queue, drop_last, adts, atol, False)
             return (True, "")
         if op == "c07.ps":
             msgs = ps_msgs(out)
-            check_with_tail(msgs, es, "start", False, True, True, atol, False)
+            check_with_tail(msgs, es, "start", False, drop_last, True, atol, False)
             return (True, "")
         if op.startswith("c07.e2e_"):
             f = out.split(" ")
@@ -897,8 +910,8 @@ def gen_a2r(tier, rng):
                 # a second, different set of parameter sets before the next key frame
                 ps2 = param_sets(rng, hevc)
                 yield Case(a2r_line(vfmt, 1, [P(0, ps + [idr]), P(40, [p]), P(80, ps2 + [idr]), P(120, [p])], True), cls="a2r-params-change")
-                # several PPS in one access unit (only the first completes the header; correspondence only)
-                yield Case(a2r_line(vfmt, 1, [P(0, ps + [ps[-1][:1] + b"\x55\x66", idr])], False), cls="a2r-two-pps")
+                # several PPS in one access unit: only the first one reaches a sequence header (known finding C07-KF-MULTI-PPS)
+                yield Case(a2r_line(vfmt, 1, [P(0, ps + [ps[-1][:1] + b"\x55\x66", idr]), P(40, [p])], True), cls="a2r-two-pps")
                 # SPS the parser refuses / panics on (correspondence only)
                 for bad in (ps[0][:1] if hevc else ps[0][:2], ps[0][:3], ps[0][:len(ps[0]) // 2], (b"\x67\x42\x00\x1e\xff" if not hevc else ps[0][:4])):
                     bl = list(ps)
@@ -1040,6 +1053,14 @@ def grid(rng, tier):
     for ar in AAC_RATES:
         out.append(S(op="rtsp", v="h264", a="aac", ar=ar, vm="single", sz="s", nv=40 if not q else 14, gop=5, am="one", filt=1, rot=1, inband=1, sdp=0))
         out.append(S(op="rtsp", v="none", a="aac", ar=ar, am=rng.choice(["one", "multi"]), filt=1, rot=1, ex="bigaac", maxp=400))
+    # RFC 3640 aggregation: 1 .. 16 complete access units per packet; every message is checked against the sample clock
+    for ar in (8000, 16000, 22050, 32000, 44100, 48000, 96000):
+        for k in range(1, 17):
+            if q and ar in (8000, 16000, 32000) and k not in (1, 2, 7, 16):
+                continue
+            out.append(S(op="rtsp", v="none", a="aac", ar=ar, am="multi%d" % k, na=2 * k + 3, ex="smallaac", filt=1, rot=1))
+        out.append(S(op="rtsp", v="h264", a="aac", ar=ar, am="multi%d" % rng.choice([7, 10, 12, 16]), na=40, nv=8, gop=4, ex="smallaac", vm="single", sz="s",
+                     filt=1, rot=1, inband=1, sdp=0))
     for a, ar in (("pcma", 8000), ("pcmu", 8000), ("opus", 48000), ("pcma", 16000)):
         out.append(S(op="rtsp", v="h265", a=a, ar=ar, vm="aggr", sz="s", nv=8, gop=4, filt=1, rot=0, inband=1, sdp=1))
         out.append(S(op="rtsp", v="none", a=a, ar=ar, filt=1, rot=1))
@@ -1058,6 +1079,16 @@ def grid(rng, tier):
                              aud=rng.randrange(2), inband=1, ex=rng.choice(["", "sei", "slices", "filler"])))
     out.append(S(op="ps", v="h264", a="aac", ar=44100, pes=65000, pts="first", mtu=1400, sz="l", nv=4, gop=2, inband=1, stuff=3))
     out.append(S(op="ps", v="h264", a="none", pes=300, pts="first", mtu=1400, sz="m", nv=6, gop=3, inband=1, chg=3))
+    # the oracle demands EVERY frame, the last one of each track included (known finding C07-KF-PS-LAST-FRAME)
+    out.append(S(op="ps", v="h264", a="aac", ar=44100, pes=65000, pts="first", mtu=1400, sz="s", nv=4, gop=2, inband=1, last=1))
+    out.append(S(op="e2e_ps", v="h265", a="none", pes=65000, pts="first", mtu=1400, sz="s", nv=3, gop=3, inband=1, last=1))
+    # 3-byte / 5-byte start codes in front of every NAL unit (fix 9c43f17), pack-header stuffing cut by rtp boundaries (fix 446939e)
+    for v in ("h264", "h265"):
+        for sc in ("a3", "a5"):
+            out.append(S(op="ps", v=v, a="aac", ar=32000, pes=65000, pts="first", mtu=1400, sz="s", nv=5, gop=2, inband=1, sc=sc, aud=1))
+            out.append(S(op="ps", v=v, a="none", pes=40, pts="all", mtu=70, sz="x", nv=5, gop=2, inband=1, sc=sc))
+        for mtu in (15, 16, 17, 18, 19, 21):
+            out.append(S(op="ps", v=v, a="pcma", ar=8000, pes=500, pts="first", mtu=mtu, sz="s", nv=4, gop=2, inband=1, stuff=rng.choice([1, 3, 5, 7])))
     # --- customize
     for v in ("h264", "h265", "none"):
         for a, ar in (("aac", 44100), ("aac", 8000), ("pcma", 8000), ("pcmu", 8000), ("opus", 48000), ("none", 8000)):
@@ -1109,8 +1140,8 @@ def gen_cases(tier, rng):
             for pes, pts in ((65000, "first"), (20, "all"), (30, "none")):
                 pk = ps_stream(rng, es, pes, pts, 1400)
                 yield Case("c07.ps 1024 %s" % ",".join(hex_tok(x) for x in pk), cls="ps-gate")
-            # 3-byte start codes (the unpacker reads the NAL type at offset 4), trailing zero bytes, pack header stuffing
-            # cut by an RTP boundary (the buffer is reset): outside the property's domain, correspondence only
+            # 3-byte start codes, trailing zero bytes, pack header stuffing cut by an RTP boundary in front of the gate
+            # (correspondence only here; the grid has the oracle'd cases)
             pk = ps_stream(rng, dict(es, sc=b"\x00\x00\x01"), 65000, "first", 1400)
             yield Case("c07.ps 1024 %s" % ",".join(hex_tok(x) for x in pk), cls="ps-startcode3")
             pk = ps_stream(rng, dict(es, tz=b"\x00\x00"), 65000, "first", 1400)
@@ -1118,6 +1149,12 @@ def gen_cases(tier, rng):
             pk = ps_stream(rng, es, 65000, "first", 16, stuffing=5)
             yield Case("c07.ps 1024 %s" % ",".join(hex_tok(x) for x in pk), cls="ps-stuffing-split")
             yield Case("c07.e2e_ps 1024 %s" % ",".join(hex_tok(x) for x in ps_stream(rng, dict(es, sc=b"\x00\x00\x01"), 40, "all", 60)), cls="ps-startcode3")
+            # an empty unit (a start code directly followed by the next one) in front of every frame: the gate sees a packet
+            # that is nothing but a start code (correspondence only)
+            for lead in (b"\x00\x00\x01", b"\x00\x00\x00\x01", b"\x00\x00\x00\x00\x01"):
+                for sc in (b"\x00\x00\x01", b"\x00\x00\x00\x01"):
+                    pk = ps_stream(rng, dict(es, sc=sc, lead=lead), 65000, "first", 1400)
+                    yield Case("c07.ps 1024 %s" % ",".join(hex_tok(x) for x in pk), cls="ps-empty-unit")
     # customize API: dispose, FeedRtmpMsg pass-through, options changed mid-stream (correspondence only)
     yield Case("c07.cust O:1:1,C:1210,P:97:0:0102,R:A:5:af0199,R:V:6:1701000000,D,P:97:23:0304,R:A:7:af0100,C:1210", cls="cust-api")
     yield Case("c07.cust P:96:0:0000000165,O:2:2,P:96:40:0000000165,P:96:80:000000016501,P:97:0:fff15080017ffc0102030405060708", cls="cust-api")
@@ -1135,3 +1172,32 @@ def neighbors(c, rng):
         for k in range(6):
             d2 = dict(d, seed=str(int(d["seed"]) * 7 + k))
             yield build(d2)[0]
+
+
+# ================================================================= known findings (open): matched narrowly
+def classify_finding(c, out):
+    f = c.line.split(" ")
+    d = parse_spec(c.line) or {}
+    if f[0] == "c07.av2rtmp" and d.get("wf") == "1":
+        # an access unit that carries two different parameter sets of one type: lal keeps one of each
+        vfmt = int(f[1])
+        for st in f[3].split(","):
+            x = st.split(":")
+            if x[0] != "P" or int(x[1]) not in (PT_AVC, PT_HEVC):
+                continue
+            hevc = int(x[1]) == PT_HEVC
+            try:
+                nals = split_avcc_strict(tok_bytes(x[3])) if vfmt == 1 else c19_h26x.ref_split_annexb(tok_bytes(x[3]))
+            except Bad:
+                continue
+            seen = {}
+            for n in nals:
+                if n and is_param(hevc, n):
+                    t = nal_type(hevc, n)
+                    if t in seen and seen[t] != n:
+                        return "C07-KF-MULTI-PPS"
+                    seen[t] = n
+        return None
+    if f[0] in ("c07.ps", "c07.e2e_ps") and d.get("last") == "1":
+        return "C07-KF-PS-LAST-FRAME"
+    return None
